@@ -174,6 +174,14 @@ impl Cx {
         self.plain(bits, &pre);
         let d = tagged(bits, &b, tag);
         self.out.ev(json!({"ev": "hash_tagged", "bits": bits, "bytes": hex(&b), "tag": tag, "digest": hex(&d)}));
+        // the CBOR variant with the same tag (every tag byte goes through both variants)
+        let x = (self.rng.next_u64() >> self.rng.below(64), tag);
+        let ser = minicbor::to_vec(x).expect("encode");
+        let mut pre = vec![tag];
+        pre.extend_from_slice(&ser);
+        self.plain(bits, &pre);
+        let d = tagged_cbor(bits, &x, tag);
+        self.out.ev(json!({"ev": "hash_tagged_cbor", "bits": bits, "ser": hex(&ser), "tag": tag, "digest": hex(&d)}));
     }
     fn cbor_value<T: minicbor::Encode<()>>(&mut self, x: &T) {
         self.reset();
